@@ -63,7 +63,8 @@ func (cache *CacheLFU) GetCount(key string) (int, error) {
 
 func (cache *CacheLFU) Flush() {
 	clear(cache.keys)
-	clear(cache.entries)
+	// Drop the entries: clearing the slice in place would keep its length and leave nil cells in the heap.
+	cache.entries = make([]*EntryLFU, 0)
 }
 
 func (cache *CacheLFU) Len() int {
